@@ -61,7 +61,13 @@ def one_surface(card, cell_expr='-1'):
 def b_surface_params(ch):
     mn = ch.choose('mn', list(SURF_OK), free=True)
     p = list(SURF_OK[mn])
+    if mn in ('x', 'y', 'z'):
+        # the two points may share their coordinate (a plane) or their radius (a cylinder): the shortcuts of
+        # the card reader for those cases must not let a card of the wrong length through
+        p = ch.choose('xyz-points', [[1, 1, 3, 2], [3, 1, 3, 2], [1, 2, 3, 2], [3, 2, 3, 2]], free=True)
     fault = ch.choose('fault', ['none', 'too-few', 'too-many'], free=True)
+    if mn in ('x', 'y', 'z') and fault == 'none' and p == [3, 2, 3, 2]:
+        ch.reject('one point given twice: no surface')
     if fault == 'too-few':
         if mn in ('tx', 'ty', 'tz'):
             p = p[:-2]       # 5 entries are accepted by the MIP library; 4 are a fault
@@ -77,7 +83,8 @@ def b_surface_params(ch):
         if mn in ('kx', 'ky', 'kz', 'k/x', 'k/y', 'k/z'):
             p = p + [1, 1]     # one more than the optional sheet selector
         elif mn in ('x', 'y', 'z'):
-            p = p + [4]
+            # 5 entries: wrong count; 6 entries: three points, which the converter does not support
+            p = p + ch.choose('xyz-extra', [[4], [2, 7], [4, 3]], free=True)
         elif mn == 'p':
             p = p + [3]
         else:
